@@ -182,13 +182,14 @@ package backend
 // The mutex guards s, e and the slots; the invariant is assumed at Lock/RLock and re-proved at
 // Unlock, so every method is proved for any interleaving that respects the lock.
 //@ monitor Ring s e arr[]
-//@ monitor_inv Ring [shape] self.l > 0 && len(self.arr) == self.l && 0 <= self.s && self.s <= self.e && self.e <= self.s+int64(self.l)
+//@ monitor_inv Ring [shape] self.l > 0 && len(self.arr) == self.l && 0 <= self.s && self.s <= self.e && self.e <= self.s+int64(self.l) && (self.e == 0 || self.e > self.s)
 // fewer than 2^62 events are ever cached (trusted: no int64 wrap of the end position)
 //@ monitor_assume Ring self.e < 0x4000000000000000
 //@ monitor_inv Ring [non-nil] forall(i, self.s <= i && i < self.e, self.arr[i-rbase(i, self.l)] != nil)
 //@ monitor_inv Ring [increasing] forall(i, self.s <= i && i < self.e, forall(j, i < j && j < self.e, self.arr[i-rbase(i, self.l)].Revision < self.arr[j-rbase(j, self.l)].Revision))
 
 //@ pred ring_shape(r) = r != nil && r.l > 0 && len(r.arr) == r.l && 0 <= r.s && r.s <= r.e && r.e <= r.s+int64(r.l) && r.e < 0x4000000000000000
+//@ pred ring_nonnil(r) = forall(i, r.s <= i && i < r.e, r.arr[i-rbase(i, r.l)] != nil)
 
 //@ func (*Ring).index(i) (result)
 //@   props C05
@@ -227,3 +228,29 @@ package backend
 //@   ensures [appended] r.e == locked(r.e)+1 && r.arr[locked(r.e)-rbase(locked(r.e), r.l)] == event
 //@   ensures [evict-only-when-full] r.s == ite(locked(r.e) == locked(r.s)+int64(r.l), locked(r.s)+1, locked(r.s))
 //@   ensures [others-kept] forall(i, r.s <= i && i < locked(r.e), r.arr[i-rbase(i, r.l)] == locked(r.arr[i-rbase(i, r.l)]))
+
+// the predicate handed to sort.Search by FindEvents: position s+i holds a revision >= the target
+//@ func (*Ring).FindEvents$1(i) (result)
+//@   props C05
+//@   requires holds(r) && ring_shape(r) && ring_nonnil(r) && 0 <= i && int64(i) < r.e-r.s
+//@   ensures [pred] result == (r.arr[(r.s+int64(i))-rbase(r.s+int64(i), r.l)].Revision >= revision)
+
+// FindEvents: under the read lock, classify the request against the cached window and
+// otherwise return exactly the cached events with revision >= the target, in order.
+//@ func (*Ring).FindEvents(revision) (ret)
+//@   props C05
+//@   modifies inferred:(*Ring).FindEvents
+//@   let n = len(ret.events)
+//@   let first = locked(r.e)-int64(len(ret.events))
+//@   ensures [classified] ret != nil && ret.empty == (locked(r.e) == 0) && (ret.empty ==> !ret.high && !ret.low && n == 0)
+//@   ensures [high] !ret.empty ==> ret.high == (revision > locked(r.arr[(r.e-1)-rbase(r.e-1, r.l)].Revision)) && (ret.high ==> !ret.low && n == 0)
+//@   ensures [low] !ret.empty && !ret.high ==> ret.low == (revision < locked(r.arr[r.s-rbase(r.s, r.l)].Revision)) && (ret.low ==> n == 0)
+//@   ensures [newest-oldest] !ret.empty ==> ret.newest == locked(r.arr[(r.e-1)-rbase(r.e-1, r.l)]) && ret.oldest == locked(r.arr[r.s-rbase(r.s, r.l)])
+//@   ensures [window] !ret.empty && !ret.high && !ret.low ==> locked(r.s) <= first && first <= locked(r.e)
+//@   ensures [nothing-older-skipped] !ret.empty && !ret.high && !ret.low ==> forall(i, locked(r.s) <= i && i < first, locked(r.arr[i-rbase(i, r.l)].Revision) < revision)
+//@   ensures [only-matching] !ret.empty && !ret.high && !ret.low ==> forall(i, first <= i && i < locked(r.e), locked(r.arr[i-rbase(i, r.l)].Revision) >= revision)
+//@   ensures [lap-of-each-returned-position] !ret.empty && !ret.high && !ret.low ==> forall(k, 0 <= k && k < n, rbase(first+int64(k), r.l) == rbase(first, r.l) || rbase(first+int64(k), r.l) == rbase(first, r.l)+r.l)
+//@   ensures [lap-of-the-end] !ret.empty && !ret.high && !ret.low ==> rbase(locked(r.e), r.l) == rbase(first, r.l) || rbase(locked(r.e), r.l) == rbase(first, r.l)+r.l
+//@   ensures [same-lap] !ret.empty && !ret.high && !ret.low && locked(r.e)-rbase(locked(r.e), r.l) > first-rbase(first, r.l) ==> rbase(locked(r.e), r.l) == rbase(first, r.l) && forall(k, 0 <= k && k < n, touch(ret.events[k]) && rbase(first+int64(k), r.l) == rbase(first, r.l))
+//@   ensures [wrapped] !ret.empty && !ret.high && !ret.low && locked(r.e)-rbase(locked(r.e), r.l) <= first-rbase(first, r.l) ==> forall(k, 0 <= k && k < n, touch(ret.events[k]) && rbase(first+int64(k), r.l) == ite(first+int64(k) < rbase(first, r.l)+r.l, rbase(first, r.l), rbase(first, r.l)+r.l))
+//@   ensures [in-order-exactly] !ret.empty && !ret.high && !ret.low ==> forall(k, 0 <= k && k < n, ret.events[k] == locked(r.arr[(first+int64(k))-rbase(first+int64(k), r.l)]))
